@@ -1,16 +1,16 @@
-\* C15 required design, scaled widths (2,3), <= 3 files, <= 12 lines, <= 5 items: PosFaithful must hold
+\* C15 required design, scaled widths (2,3), 2 files, <= 12 lines, <= 5 items (quick): PosFaithful must hold
 CONSTANTS
   CNO = 2
   LNO = 3
   Packer = "required"
   Policy = "required"
   EofPolicy = "required"
-  FileNames = {"a", "b", "c"}
+  FileNames = {"a", "b"}
   TopFile = "a"
   LineNames = {"a", "b"}
   LineNums = {1, 4}
   Cols = {1, 3, 4, 9}
-  RunLens = {1, 2, 4}
+  RunLens = {1, 4}
   MaxLines = 12
   MaxIf = 1
   MaxItems = 5
